@@ -597,10 +597,13 @@ def run_u256(ctx, F):
         try:
             finals = X.run_proc(name, limb_inputs(my_ins), budget=20000)
         except Undecided as e:
-            if name == "mul_unsafe":
-                ctx.analysed("%s: not decided (%s)" % (key, str(e)[:120]))
+            msg = str(e)
+            if "is not known to be a u32 value" in msg:
+                # a u32 instruction applied to a value that may exceed 2^32 - 1: outside the instruction's documented domain
+                ctx.oblig(False)
+                ctx.violation("u32-operand-range|%s" % key, loc, "%s: %s; the instruction reference leaves the result undefined for such operands (the VM reduces modulo the field prime), so the limb arithmetic is not justified" % (key, msg[:260]))
                 continue
-            ctx.violation("UNANALYSABLE|%s" % key, loc, str(e)[:300])
+            ctx.violation("UNANALYSABLE|%s" % key, loc, msg[:300])
             continue
         if len(finals) != 1:
             ctx.violation("UNANALYSABLE|%s" % key, loc, "%d paths" % len(finals))
@@ -710,7 +713,7 @@ def run(ctx, F):
                     "data-movement semantics: the table that C05 validates against the assembler and the operation handlers",
                     "specifications: the `#!` documentation of u64.masm; for u256.masm the procedure names",
                     "arithmetic lemmas: lexicographic order of limbs; a = q*b + r with 0 <= r < b determines q and r; a product of two values below the prime modulus is zero only if a factor is zero"]
-    ctx.assumptions += ["inputs are u32 limbs (stated as assumed by the procedures' documentation)", "shifts, rotations, bit counts and u256::mul_unsafe are not decided (listed in the evidence)"]
+    ctx.assumptions += ["inputs are u32 limbs (stated as assumed by the procedures' documentation)", "every u32 instruction of the analysed procedures is applied to values proved to be u32 (bounds chained through the carry identities), otherwise the procedure is reported"]
     ctx.run_rule("C16-R0", "every data-movement instruction used in the analysed files has a C05-validated model", r_data_movement_table, F)
     ctx.run_rule("C16-R1", "u64 procedures compute their documented results for all operands (integer polynomial identities / order enumeration / implied division identity) and keep the rest of the stack", run_u64, F)
     ctx.run_rule("C16-R3", "no math procedure reads a procedure local before writing it (history independence)", r3_locals, F)
